@@ -268,6 +268,8 @@ pub struct ClientCtx {
     pub shutdown_requested: Cell<bool>,
     /// the driver has seen `Client::run()` return
     pub stopped: Cell<bool>,
+    /// the application itself asked for the shutdown (Handle::shutdown or dropping everything)
+    pub self_shutdown: Cell<bool>,
     /// a pending reply was dropped and the client has not verifiably processed the abort yet
     pub abort_dirty: Cell<bool>,
     pub cancel: Cancel,
@@ -296,6 +298,7 @@ impl ClientCtx {
             lts: slots(NLT),
             shutdown_requested: Cell::new(false),
             stopped: Cell::new(false),
+            self_shutdown: Cell::new(false),
             abort_dirty: Cell::new(false),
             cancel: Cancel::default(),
         })
@@ -318,6 +321,7 @@ impl ClientCtx {
 
     /// Drops every value and handle the application holds on this client.
     pub fn drop_all(&self) {
+        self.self_shutdown.set(true);
         self.cancel.set();
         self.drop_replies();
         let held = std::mem::take(&mut *self.held.borrow_mut());
@@ -486,6 +490,8 @@ pub struct World {
     pub allow_late_abort: bool,
     pub allow_listener_after_destroy: bool,
     pub allow_broker_shutdown_in_flight: bool,
+    pub allow_claim_cancel: bool,
+    pub allow_client_vs_broker_shutdown: bool,
     /// for `Op::BrokerShutdown`
     pub broker: RefCell<Option<aldrin_broker::BrokerHandle>>,
     pub broker_shutdown_requested: Cell<bool>,
@@ -513,6 +519,8 @@ impl World {
             allow_late_abort: allow.late_abort,
             allow_listener_after_destroy: allow.listener_after_destroy,
             allow_broker_shutdown_in_flight: allow.broker_shutdown_in_flight,
+            allow_claim_cancel: allow.claim_cancel,
+            allow_client_vs_broker_shutdown: allow.client_vs_broker_shutdown,
             broker: RefCell::new(None),
             broker_shutdown_requested: Cell::new(false),
             trace_on: true,
@@ -917,6 +925,13 @@ async fn exec(w: &Rc<World>, t: &Rc<TaskCtx>, cc: &Rc<ClientCtx>, op: &Op) -> St
                 w.count("excluded:f2");
                 return "excluded:f2".into();
             }
+            if w.broker_shutdown_requested.get() && !cc.stopped.get() {
+                if !w.allow_client_vs_broker_shutdown {
+                    w.count("excluded:f9");
+                    return "excluded:f9".into();
+                }
+                w.count("client-shutdown-races-broker-shutdown");
+            }
             if cc.abort_dirty.get() {
                 if w.allow_late_abort {
                     // a reply was dropped just before: the client may meet the abort while it
@@ -934,6 +949,7 @@ async fn exec(w: &Rc<World>, t: &Rc<TaskCtx>, cc: &Rc<ClientCtx>, op: &Op) -> St
             }
             w.note_client_teardown(ci);
             cc.shutdown_requested.set(true);
+            cc.self_shutdown.set(true);
             h.shutdown();
             w.count("op:shutdown-mid-program");
             "ok".into()
@@ -948,6 +964,10 @@ async fn exec(w: &Rc<World>, t: &Rc<TaskCtx>, cc: &Rc<ClientCtx>, op: &Op) -> St
             if !w.allow_broker_shutdown_in_flight {
                 w.count("excluded:f7");
                 return "excluded:f7".into();
+            }
+            if !w.allow_client_vs_broker_shutdown && w.clients.iter().any(|c| c.shutdown_requested.get() && !c.stopped.get()) {
+                w.count("excluded:f9");
+                return "excluded:f9".into();
             }
             w.broker_shutdown_requested.set(true);
             let in_flight = w.tasks.borrow().iter().filter(|x| matches!(&*x.blocked.borrow(), Some(b) if b.class == Class::Request)).count();
@@ -1340,22 +1360,17 @@ async fn exec(w: &Rc<World>, t: &Rc<TaskCtx>, cc: &Rc<ClientCtx>, op: &Op) -> St
             let Some(h) = cc.h() else { return skip(w) };
             let cookie = w.board.borrow().unbound[*end as usize].get(*k as usize).copied().flatten();
             let Some(cookie) = cookie else { return skip(w) };
-            {
-                let mut b = w.board.borrow_mut();
-                if let Some(i) = b.chans.get_mut(&cookie.0) {
-                    if i.bound {
-                        if !w.allow_refused_claims {
-                            drop(b);
-                            w.count("excluded:f2");
-                            return "excluded:f2".into();
-                        }
-                        drop(b);
-                        w.count("two-claimants");
-                    } else {
-                        i.bound = true;
-                    }
-                    i.binds += 1;
+            let already_bound = w.board.borrow().chans.get(&cookie.0).map(|i| i.bound).unwrap_or(false);
+            if already_bound {
+                if !w.allow_refused_claims {
+                    w.count("excluded:f2");
+                    return "excluded:f2".into();
                 }
+                w.count("two-claimants");
+            }
+            if let Some(i) = w.board.borrow_mut().chans.get_mut(&cookie.0) {
+                i.bound = true;
+                i.binds += 1;
             }
             // the slot is overwritten: the previous end is dropped
             let old_cookie = match end {
@@ -1446,6 +1461,10 @@ async fn exec(w: &Rc<World>, t: &Rc<TaskCtx>, cc: &Rc<ClientCtx>, op: &Op) -> St
             if !w.allow_refused_claims {
                 w.count("excluded:f2");
                 return "excluded:f2".into();
+            }
+            if !w.allow_claim_cancel {
+                w.count("excluded:f8");
+                return "excluded:f8".into();
             }
             if let Some(i) = w.board.borrow_mut().chans.get_mut(&cookie) {
                 i.claim_attempts += 1;
